@@ -935,16 +935,18 @@ def hsServer13 (C : Crypto) (s : Settings) (ownChain : Chain) (configs : List Ps
 
 /-! ### `_handshakeWrapperAsync` with a Checker -/
 
-/-- `Checker(x509Fingerprint=fp)`; `fingerprint` abstracts `chain.getFingerprint()` -/
-def checkerOk (fingerprint : Chain → Bytes) (fp : Bytes) (isClient : Bool) (sess : Session) : Bool :=
+/-- `Checker(x509Fingerprint=fp)`: `chain.getFingerprint()` is the fingerprint of the END-ENTITY
+    certificate `x509List[0]` — the one whose key the peer proved possession of; the other
+    certificates of the chain are not consulted.  `certFp` abstracts `X509.getFingerprint`. -/
+def checkerOk (certFp : Cert → Bytes) (fp : Bytes) (isClient : Bool) (sess : Session) : Bool :=
   let chain := if isClient then sess.serverCertChain else sess.clientCertChain
   match chain with
   | [] => false                       -- TLSNoAuthenticationError
-  | _ => fingerprint chain = fp       -- TLSFingerprintError otherwise
+  | c :: _ => certFp c = fp           -- TLSFingerprintError otherwise
 
 /-- the handshake ran (`o`); then the checker: a mismatch sends a fatal close_notify, re-raises,
     and the bare `except:` shuts the connection down (`resumable = False`). -/
-def wrapper (fingerprint : Chain → Bytes) (checker : Option Bytes) (isClient : Bool) (o : Outcome) :
+def wrapper (fingerprint : Cert → Bytes) (checker : Option Bytes) (isClient : Bool) (o : Outcome) :
     Outcome :=
   if o.completed = false then o
   else match checker, o.session with
